@@ -56,6 +56,13 @@ def families(tier):
         fams += [("nodir:set-vs-set", nodir, [[S1, GET], [S2, GET]]),
                  ("nodir:put-vs-set", nodir, [[P1, GET], [S2, GET]]),
                  ("nodir:ensure-vs-put", nodir, [[E1], [P2, GET]])]
+        # the adversary of C05: somebody deletes the published cache file at an arbitrary point
+        RM = "op 0 rm %s" % kp
+        fams += [("adversary:rm-vs-touch-get", present, [[RM], [TCH, GET]]),
+                 ("adversary:rm-vs-get-touch", present, [[RM], [GET, TCH]]),
+                 ("adversary:rm-vs-put-get", present, [[RM], [P2, GET]]),
+                 ("adversary:rm-vs-ensure", present, [[RM], [E2]]),
+                 ("nodir:put-vs-put", nodir, [[P1, GET], [P2, GET]])]
         if tier != "quick":
             fams += [("put-vs-get/present", present, [[P1, GET], [GET, TCH]]),
                      ("replace-vs-ensure", present, [[GR], [E2]]),
